@@ -66,11 +66,13 @@ class Harness:
 class Explorer:
 
   def __init__(self, harness: Harness, *, pre_bound=2, dev_bound=0,
-               max_execs=None, time_limit=None, det_checks=10, hb_cache=False):
+               max_execs=None, time_limit=None, det_checks=10, hb_cache=False,
+               deadline=None):
     self.h = harness
     self.bounds = (pre_bound, dev_bound)
     self.max_execs = max_execs
     self.time_limit = time_limit
+    self.deadline = deadline      # absolute wall-clock deadline of the check
     self.det_checks = det_checks
     self.stats = Stats()
     self.execs = 0
@@ -145,6 +147,8 @@ class Explorer:
       return True
     if self.time_limit is not None and time.time() - self.t0 > self.time_limit:
       return True
+    if self.deadline is not None and time.time() > self.deadline:
+      return True
     return False
 
   def seed_frontier(self, want):
@@ -163,7 +167,8 @@ class Explorer:
       if self._over():
         self.capped = True
         self.stats.cap(f'{self.h.name}: exploration budget '
-                       f'(max_execs={self.max_execs}, time={self.time_limit})')
+                       f'(max_execs={self.max_execs}, time={self.time_limit}, '
+                       f'check deadline={"yes" if self.deadline else "no"})')
         break
       p = stack.pop()
       res = self._run(p)
@@ -230,7 +235,7 @@ def explore_all(ctx, module, configs, *, pre_bound, dev_bound=0, split=0,
   if time_limit is None and os.environ.get('VERIF_UNIT_TIME_LIMIT'):
     time_limit = float(os.environ['VERIF_UNIT_TIME_LIMIT'])
   limits = {'max_execs': max_execs, 'time_limit': time_limit,
-            'hb_cache': hb_cache}
+            'hb_cache': hb_cache, 'deadline': getattr(ctx, 'deadline', None)}
   bounds = (pre_bound, dev_bound)
   items = [(module, n, p, bounds, split, limits) for n, p in configs]
   if not split:
